@@ -38,10 +38,14 @@ type cfg struct {
 	Elapsed     time.Duration
 	ExtraTelem  bool // telemetry batch carries other records around runtimeDone, and one batch without it
 	InitFail    bool // start-up path: server.Run fails
+	TelemFail   bool // start-up path: the server is healthy but the telemetry listener cannot be bound
 	SlowSub     bool // with InitFail: per-invocation flushing enabled and the telemetry subscription takes >= 100 ms
 }
 
 func (c cfg) String() string {
+	if c.TelemFail {
+		return "telemetry-listener-fails"
+	}
 	return fmt.Sprintf("N%d-b%v-f%d-el%v-x%v-init%v-slowsub%v", c.Invocations, c.Batches, c.Failures, c.Elapsed, c.ExtraTelem, c.InitFail, c.SlowSub)
 }
 
@@ -186,6 +190,14 @@ func (u upstream) RoundTrip(req *http.Request) (*http.Response, error) {
 	return jsonResp(req, 202, "", nil), nil
 }
 
+// healthyServer runs until it is told to stop
+type healthyServer struct{}
+
+func (healthyServer) Run(ctx context.Context) error {
+	vsched.Recv(ctx.Done())
+	return ctx.Err()
+}
+
 type failingServer struct{ err error }
 
 func (s failingServer) Run(ctx context.Context) error { return s.err }
@@ -204,6 +216,26 @@ func body(c cfg, r *run) func(*vsched.Exec) {
 		w := vsched.EnvGet("clock").(clock.Clock)
 		clock.VerifDefault = w
 		backoff.VerifNow = func() time.Time { return w.Now() }
+		if c.TelemFail {
+			// the statsd server is fine, but the telemetry listener's address (sandbox.invalid:8083) cannot be
+			// bound: that is a start-up failure of the extension - it must be reported to init/error, the manager
+			// must return it, and no invocation may be requested
+			r.subGate = make(chan struct{}, 1)
+			r.subGate <- struct{}{}
+			m := extension.VerifNew("lambda.invalid", runtimeAPI{r}, fx.Quiet(), healthyServer{}, flush.NewFlushCoordinator(), true)
+			var err error
+			done := false
+			vsched.GoNamed("manager.Run", func() { err = m.Run(ctx); done = true })
+			vsched.Quiesce("starting")
+			vtime.Advance(mock, 100*time.Millisecond)
+			vsched.Quiesce("grace-over")
+			if !done {
+				r.fail("manager-did-not-return", fmt.Sprintf("manager.Run is still running although the telemetry listener could not be started; log %v", r.log))
+			} else if err == nil {
+				r.fail("start-up-error-swallowed", "manager.Run returned nil although the telemetry listener could not be started")
+			}
+			return
+		}
 		if c.InitFail && c.SlowSub {
 			// per-invocation flushing: the manager also subscribes to the telemetry API during start-up. The
 			// listener address cannot be bound in the sandbox, so the telemetry server thread fails too; either
@@ -306,7 +338,7 @@ func check(c cfg, r *run, outcomes map[string]struct{}) func(*vsched.Exec, vsche
 		if r.viol != "" {
 			return r.violKey, r.viol
 		}
-		if c.InitFail {
+		if c.InitFail || c.TelemFail {
 			if r.initErrs != 1 {
 				return "init-error-not-reported", fmt.Sprintf("server failed during start-up: %d init/error requests (exit/error: %d); log %v", r.initErrs, r.exitErrs, r.log)
 			}
@@ -337,6 +369,7 @@ func configs() []cfg {
 		{Invocations: 2, Batches: []int{1, 1}, Failures: 1, Elapsed: -1},
 		{InitFail: true},
 		{InitFail: true, SlowSub: true},
+		{TelemFail: true},
 		{Invocations: 3, Batches: []int{1, 2, 1}, Failures: 2, Elapsed: time.Second, ExtraTelem: true},
 		{Invocations: 3, Batches: []int{0, 1, 0}, Failures: 1, Elapsed: -1},
 	}
